@@ -79,7 +79,6 @@ Variable x0 : list Q.
 Hypothesis Hfeas : feasible COr p y bs x0.
 Variable k : nat.
 Hypothesis Hk : (k < length bs)%nat.
-Hypothesis Hwk : 0 < nth k (weights p) 0.
 Hypothesis Halpha : alpha p == 1.
 
 Let nbs := map neg bs.
@@ -118,8 +117,8 @@ Theorem or_operand_lower_attained :
   exists xs, feasible COr p y bs xs /\ nth k xs 0 == lo (nth k (step_x COr p y bs) unknown).
 Proof.
   assert (Hk2 : (k < length nbs)%nat) by (unfold nbs; rewrite map_length; exact Hk).
-  destruct (operand_upper_attained p Hw (neg y) (wf_neg y Hy) nbs (ordered_all_neg bs Hord) nbs_len (map compl x0) dual_feasible k Hk2 Hwk Halpha)
-    as [zs [Zf Zk]].
+  destruct (and_operand_attained p (neg y) nbs (map compl x0) k Hw (wf_neg y Hy) (ordered_all_neg bs Hord) nbs_len dual_feasible Hk2 Halpha)
+    as [_ [zs [Zf Zk]]].
   exists (map compl zs). split; [apply back_feasible; exact Zf|].
   assert (Lz : (k < length zs)%nat) by (destruct Zf as [Zb _]; rewrite <- (Forall2_length _ _ _ Zb); exact Hk2).
   rewrite (nth_map_compl zs k Lz), Zk. destruct step_x_or_and as [E1 _]. rewrite E1. unfold neg; cbn [lo hi]. reflexivity.
@@ -129,8 +128,8 @@ Theorem or_operand_upper_attained :
   exists xs, feasible COr p y bs xs /\ nth k xs 0 == hi (nth k (step_x COr p y bs) unknown).
 Proof.
   assert (Hk2 : (k < length nbs)%nat) by (unfold nbs; rewrite map_length; exact Hk).
-  destruct (operand_lower_attained p Hw (neg y) (wf_neg y Hy) nbs (ordered_all_neg bs Hord) nbs_len (map compl x0) dual_feasible k Hk2 Hwk Halpha)
-    as [zs [Zf Zk]].
+  destruct (and_operand_attained p (neg y) nbs (map compl x0) k Hw (wf_neg y Hy) (ordered_all_neg bs Hord) nbs_len dual_feasible Hk2 Halpha)
+    as [[zs [Zf Zk]] _].
   exists (map compl zs). split; [apply back_feasible; exact Zf|].
   assert (Lz : (k < length zs)%nat) by (destruct Zf as [Zb _]; rewrite <- (Forall2_length _ _ _ Zb); exact Hk2).
   rewrite (nth_map_compl zs k Lz), Zk. destruct step_x_or_and as [_ E2]. rewrite E2. unfold neg; cbn [lo hi]. reflexivity.
@@ -217,27 +216,21 @@ Proof.
 Qed.
 
 Theorem imp_operands_attained :
-  (0 < w0 ->
-     (exists xs, feasible CImp p y [b0; b1] xs /\ nth 0 xs 0 == lo (nth 0 (step_x CImp p y [b0; b1]) unknown)) /\
-     (exists xs, feasible CImp p y [b0; b1] xs /\ nth 0 xs 0 == hi (nth 0 (step_x CImp p y [b0; b1]) unknown))) /\
-  (0 < w1 ->
-     (exists xs, feasible CImp p y [b0; b1] xs /\ nth 1 xs 0 == lo (nth 1 (step_x CImp p y [b0; b1]) unknown)) /\
-     (exists xs, feasible CImp p y [b0; b1] xs /\ nth 1 xs 0 == hi (nth 1 (step_x CImp p y [b0; b1]) unknown))).
+  ((exists xs, feasible CImp p y [b0; b1] xs /\ nth 0 xs 0 == lo (nth 0 (step_x CImp p y [b0; b1]) unknown)) /\
+   (exists xs, feasible CImp p y [b0; b1] xs /\ nth 0 xs 0 == hi (nth 0 (step_x CImp p y [b0; b1]) unknown))) /\
+  ((exists xs, feasible CImp p y [b0; b1] xs /\ nth 1 xs 0 == lo (nth 1 (step_x CImp p y [b0; b1]) unknown)) /\
+   (exists xs, feasible CImp p y [b0; b1] xs /\ nth 1 xs 0 == hi (nth 1 (step_x CImp p y [b0; b1]) unknown))).
 Proof.
   destruct step_x_imp_and as [[A1 A2] [B1 B2]]. unfold neg in B1, B2; cbn [lo hi] in B1, B2.
   assert (K0 : (0 < length nbs)%nat) by (unfold nbs; cbn [length]; lia).
   assert (K1 : (1 < length nbs)%nat) by (unfold nbs; cbn [length]; lia).
-  split; intros Hwk.
-  - assert (Hwk' : 0 < nth 0 (weights p) 0) by (rewrite Hws; exact Hwk). split.
-    + destruct (operand_lower_attained p Hw_imp (neg y) (wf_neg y Hy) nbs nbs_ord nbs_len_imp _ dual_feasible_imp 0%nat K0 Hwk' Halpha) as [zs [Zf Zk]].
-      destruct (back_feasible_imp zs Zf) as [z0 [z1 [-> F]]]. exists [z0; 1 - z1]. split; [exact F|]. cbn [nth] in *. rewrite Zk, A1. reflexivity.
-    + destruct (operand_upper_attained p Hw_imp (neg y) (wf_neg y Hy) nbs nbs_ord nbs_len_imp _ dual_feasible_imp 0%nat K0 Hwk' Halpha) as [zs [Zf Zk]].
-      destruct (back_feasible_imp zs Zf) as [z0 [z1 [-> F]]]. exists [z0; 1 - z1]. split; [exact F|]. cbn [nth] in *. rewrite Zk, A2. reflexivity.
-  - assert (Hwk' : 0 < nth 1 (weights p) 0) by (rewrite Hws; exact Hwk). split.
-    + destruct (operand_upper_attained p Hw_imp (neg y) (wf_neg y Hy) nbs nbs_ord nbs_len_imp _ dual_feasible_imp 1%nat K1 Hwk' Halpha) as [zs [Zf Zk]].
-      destruct (back_feasible_imp zs Zf) as [z0 [z1 [-> F]]]. exists [z0; 1 - z1]. split; [exact F|]. cbn [nth] in *. rewrite Zk, B1. reflexivity.
-    + destruct (operand_lower_attained p Hw_imp (neg y) (wf_neg y Hy) nbs nbs_ord nbs_len_imp _ dual_feasible_imp 1%nat K1 Hwk' Halpha) as [zs [Zf Zk]].
-      destruct (back_feasible_imp zs Zf) as [z0 [z1 [-> F]]]. exists [z0; 1 - z1]. split; [exact F|]. cbn [nth] in *. rewrite Zk, B2. reflexivity.
+  destruct (and_operand_attained p (neg y) nbs _ 0%nat Hw_imp (wf_neg y Hy) nbs_ord nbs_len_imp dual_feasible_imp K0 Halpha) as [[zl [Zfl Zkl]] [zu [Zfu Zku]]].
+  destruct (and_operand_attained p (neg y) nbs _ 1%nat Hw_imp (wf_neg y Hy) nbs_ord nbs_len_imp dual_feasible_imp K1 Halpha) as [[tl [Tfl Tkl]] [tu [Tfu Tku]]].
+  split; split.
+  - destruct (back_feasible_imp zl Zfl) as [z0 [z1 [-> F]]]. exists [z0; 1 - z1]. split; [exact F|]. cbn [nth] in *. rewrite Zkl, A1. reflexivity.
+  - destruct (back_feasible_imp zu Zfu) as [z0 [z1 [-> F]]]. exists [z0; 1 - z1]. split; [exact F|]. cbn [nth] in *. rewrite Zku, A2. reflexivity.
+  - destruct (back_feasible_imp tu Tfu) as [z0 [z1 [-> F]]]. exists [z0; 1 - z1]. split; [exact F|]. cbn [nth] in *. rewrite Tku, B1. reflexivity.
+  - destruct (back_feasible_imp tl Tfl) as [z0 [z1 [-> F]]]. exists [z0; 1 - z1]. split; [exact F|]. cbn [nth] in *. rewrite Tkl, B2. reflexivity.
 Qed.
 End ImpOperands.
 
